@@ -383,12 +383,71 @@ type rval struct {
 }
 
 type rolesInterp struct {
-	info   *types.Info
-	decls  map[types.Object]*ast.FuncDecl
-	ops    []string // assumed opcode names, sorted
-	count  int
-	steps  int
-	failed string
+	info    *types.Info
+	decls   map[types.Object]*ast.FuncDecl
+	ops     []string // assumed opcode names, sorted
+	count   int
+	steps   int
+	failed  string
+	lastRet []rval // all values of the last return executed
+}
+
+func zeroOf(t types.Type) rval {
+	if b, ok := t.Underlying().(*types.Basic); ok {
+		switch {
+		case b.Info()&types.IsBoolean != 0:
+			return rval{known: true, num: "false"}
+		case b.Info()&types.IsString != 0:
+			return rval{known: true, isStr: true}
+		case b.Info()&types.IsNumeric != 0:
+			return rval{known: true, num: "0"}
+		}
+	}
+	return rval{}
+}
+
+// callAll runs a helper of the package and returns all its results.
+func (ri *rolesInterp) callAll(x *ast.CallExpr, env map[types.Object]rval) ([]rval, bool) {
+	c := core.CalleeOf(ri.info, x)
+	fd, ok := ri.decls[c]
+	if !ok || ri.steps > 2000 {
+		return nil, false
+	}
+	cenv := map[types.Object]rval{}
+	idx := 0
+	for _, f := range fd.Type.Params.List {
+		for _, n := range f.Names {
+			if idx < len(x.Args) {
+				cenv[ri.info.ObjectOf(n)] = ri.eval(x.Args[idx], env)
+			}
+			idx++
+		}
+	}
+	var named []types.Object
+	if fd.Type.Results != nil {
+		for _, f := range fd.Type.Results.List {
+			for _, n := range f.Names {
+				o := ri.info.ObjectOf(n)
+				named = append(named, o)
+				cenv[o] = zeroOf(o.Type())
+			}
+		}
+	}
+	saved := ri.count
+	ri.lastRet = nil
+	sig, _ := ri.exec(fd.Body.List, cenv)
+	ri.count = saved // a helper that classifies does not build the lists
+	if sig != rReturn {
+		return nil, false
+	}
+	if len(ri.lastRet) == 0 && len(named) > 0 { // bare return with named results
+		var out []rval
+		for _, o := range named {
+			out = append(out, cenv[o])
+		}
+		return out, true
+	}
+	return ri.lastRet, true
 }
 
 type rsig int
@@ -435,23 +494,19 @@ func (ri *rolesInterp) eval(e ast.Expr, env map[types.Object]rval) rval {
 				return rval{known: true, num: "false"}
 			}
 		}
-		if fd, ok := ri.decls[c]; ok && ri.steps < 2000 {
-			// a helper of the package: run it with its parameters bound
-			cenv := map[types.Object]rval{}
-			idx := 0
-			for _, f := range fd.Type.Params.List {
-				for _, n := range f.Names {
-					if idx < len(x.Args) {
-						cenv[ri.info.ObjectOf(n)] = ri.eval(x.Args[idx], env)
-					}
-					idx++
-				}
+		if _, ok := ri.decls[c]; ok {
+			if vals, ok := ri.callAll(x, env); ok && len(vals) >= 1 {
+				return vals[0]
 			}
-			saved := ri.count
-			sig, ret := ri.exec(fd.Body.List, cenv)
-			ri.count = saved // a helper that classifies does not build the lists
-			if sig == rReturn {
-				return ret
+		}
+	case *ast.UnaryExpr:
+		if x.Op == token.NOT {
+			v := ri.eval(x.X, env)
+			if v.known && v.num == "true" {
+				return rval{known: true, num: "false"}
+			}
+			if v.known && v.num == "false" {
+				return rval{known: true, num: "true"}
 			}
 		}
 	case *ast.BinaryExpr:
@@ -513,10 +568,32 @@ func (ri *rolesInterp) exec(list []ast.Stmt, env map[types.Object]rval) (rsig, r
 				return s, v
 			}
 		case *ast.ReturnStmt:
-			if len(x.Results) >= 1 {
-				return rReturn, ri.eval(x.Results[0], env)
+			ri.lastRet = nil
+			for _, e := range x.Results {
+				ri.lastRet = append(ri.lastRet, ri.eval(e, env))
+			}
+			if len(ri.lastRet) >= 1 {
+				return rReturn, ri.lastRet[0]
 			}
 			return rReturn, rval{}
+		case *ast.DeclStmt:
+			if gd, ok := x.Decl.(*ast.GenDecl); ok {
+				for _, sp := range gd.Specs {
+					if vs, ok := sp.(*ast.ValueSpec); ok {
+						for i, n := range vs.Names {
+							o := ri.info.ObjectOf(n)
+							if o == nil {
+								continue
+							}
+							if i < len(vs.Values) {
+								env[o] = ri.eval(vs.Values[i], env)
+							} else {
+								env[o] = zeroOf(o.Type())
+							}
+						}
+					}
+				}
+			}
 		case *ast.BranchStmt:
 			switch x.Tok {
 			case token.CONTINUE:
@@ -525,6 +602,24 @@ func (ri *rolesInterp) exec(list []ast.Stmt, env map[types.Object]rval) (rsig, r
 				return rBreak, rval{}
 			}
 		case *ast.AssignStmt:
+			if len(x.Lhs) > 1 && len(x.Rhs) == 1 {
+				if call, ok := ast.Unparen(x.Rhs[0]).(*ast.CallExpr); ok {
+					if vals, ok := ri.callAll(call, env); ok && len(vals) == len(x.Lhs) {
+						for i, l := range x.Lhs {
+							if id, ok := l.(*ast.Ident); ok && id.Name != "_" {
+								env[ri.info.ObjectOf(id)] = vals[i]
+							}
+						}
+						continue
+					}
+				}
+				for _, l := range x.Lhs {
+					if id, ok := l.(*ast.Ident); ok && id.Name != "_" {
+						env[ri.info.ObjectOf(id)] = rval{}
+					}
+				}
+				continue
+			}
 			for i, l := range x.Lhs {
 				if i >= len(x.Rhs) {
 					break
